@@ -29,6 +29,16 @@ def Framed(data, head, tail):
     return is_bytes(head) and is_bytes(tail) and data == head + b'\n' + tail and b'\n' not in head
 
 
+def CodecInverse(frame, action, specifier, data):
+    from frappy.protocol.interface import decode_msg
+    if data is None and not specifier:
+        return decode_msg(frame) == (action, None, None)
+    if data is not None and not specifier:
+        # a triple with data but without specifier has no wire form of its own (the data would be read as specifier): SECoP uses '.'
+        return True
+    return decode_msg(frame) == (action, specifier, data)
+
+
 CONTRACTS = [
     dict(key='get_msg', file='frappy/protocol/interface/__init__.py', func='get_msg', serves=['C07'],
          params={'_bytes': 'bytes'}, requires=[],
@@ -84,6 +94,14 @@ CONTRACTS = [
          ensures={'text': 'is_str(result)'}, raises='never', result_kind='str'),
     dict(key='sys.exc_info', file=None, func=None, signature='', serves=[], trusted=True, requires=[],
          ensures={}, raises='never'),
+    # the codec (bounded stand-in only): every triple whose data part is a JSON value - anything json.loads can produce, strings with
+    # lone surrogates included - is framed as one UTF-8 line that decodes to the same triple
+    dict(key='encode_msg_frame', vc=False, file='frappy/protocol/interface/__init__.py', func='encode_msg_frame', serves=['C07'],
+         requires=[],
+         ensures={'one_line': "is_bytes(result) and result.endswith(b'\\n') and b'\\n' not in result[:-1] and b'\\r' not in result",
+                  'utf8': "result.decode('utf-8') is not None",
+                  'inverse': 'CodecInverse(result, action, specifier, data)'},
+         raises='never'),
     dict(key='RequestHandler.handle_help', file='frappy/protocol/interface/handler.py', func='RequestHandler.handle_help',
          serves=['C07'], self_type='RequestHandler', requires=['inv(self)'], modifies=['running'],
          ghost_modifies=['log_async'],
